@@ -250,7 +250,28 @@ def version_key():
     return _st().sampled_from(spec.VKEYS)
 
 
-ALPHABET = "/:.XNLHAVCPRUISMTEDGFOWYBQZacdeilmnrsux0123456789 \n\t-_,;é☃"
+ALPHABET = "/:.XNLHAVCPRUISMTEDGFOWYBQZacdeilmnrsux0123456789 \n\t-_,;é☃{}%\\$\"'"      # incl. format-string metacharacters
+_CONF = None
+
+
+def confusables():
+    """ASCII char -> non-ASCII code points that Unicode-aware operations (NFKC, case mapping, int(), \\d ...) turn
+    into it (pinned table, tools/mkconfusables.py); both letter cases of a letter share their lists"""
+    global _CONF
+    if _CONF is None:
+        import json
+        import os
+        with open(os.path.join(spec.DATA, "confusables.json")) as f:
+            raw = json.load(f)
+        conf = {}
+        for a, lst in raw.items():
+            for b in set((a, a.upper(), a.lower())):
+                conf.setdefault(b, [])
+                for c in lst:
+                    if c not in conf[b]:
+                        conf[b].append(c)
+        _CONF = conf
+    return _CONF
 EDIT_ALPHABET = "/:.XNLHAVCPRUISMTEDGFOWYaclmrsux0134 \n-é"   # 40 + for complete one-edit balls
 
 
@@ -272,7 +293,7 @@ def mutated(ver, max_edits=3):
     return s()
 
 
-OPS = ("ins", "del", "rep", "drop_field", "drop_mandatory", "dup_field", "dup_field_other_value", "swap_fields",
+OPS = ("ins", "del", "rep", "confusable", "drop_field", "drop_mandatory", "dup_field", "dup_field_other_value", "swap_fields",
        "transplant", "empty_field", "surgery", "case", "value_of_other_metric", "strip_value", "extra_colon")
 
 
@@ -292,6 +313,13 @@ def apply_op(draw, ver, s, op):
             return s
         i = draw(st.integers(0, len(s) - 1))
         return s[:i] + draw(st.sampled_from(ALPHABET)) + s[i + 1:]
+    if op == "confusable":
+        conf = confusables()
+        idx = [i for i, ch in enumerate(s) if ch in conf]
+        if not idx:
+            return s
+        i = draw(st.sampled_from(idx))
+        return s[:i] + draw(st.sampled_from(conf[s[i]])) + s[i + 1:]
     fs = s.split("/")
     if op == "drop_field":
         j = draw(st.integers(0, len(fs) - 1))
